@@ -85,7 +85,8 @@ def getU64 : Bytes → Res Nat
 
 /-- `read(ptr, size)`: `is_.read(ptr, size); check_eof();` -/
 def readN (n : Nat) (bs : Bytes) : Res Bytes :=
-  if bs.length < n then .error .eof else .ok (bs.take n) (bs.drop n)
+  let a := bs.take n
+  if a.length < n then .error .eof else .ok a (bs.drop n)   -- fewer than `n` bytes left: eofbit|failbit
 
 /-- `check_type(expected)` -/
 def checkType (t : Nat) (bs : Bytes) : Res Unit :=
